@@ -345,12 +345,24 @@ class LocalStorageBackend(StorageBackend):
         live table (#45).
         """
         full_prefix = self._resolve_path(prefix)
-        if not os.path.exists(full_prefix):
+        # "Not there" is an empty listing; "cannot be read" is an error. os.walk
+        # swallows scandir errors by default and os.path.exists answers False on
+        # a stat error, so an unreadable directory (EACCES, EIO) used to list as
+        # EMPTY: the collector saw no in-flight markers and deleted the files
+        # they protect.
+        try:
+            if not os.path.isdir(full_prefix):
+                os.stat(full_prefix)  # raises unless it is a plain file
+                return []
+        except (FileNotFoundError, NotADirectoryError):
             return []
+
+        def _listing_failed(err: OSError) -> None:
+            raise err
 
         base_path = self._real_base_path()
         result = []
-        for root, _dirs, files in os.walk(full_prefix):
+        for root, _dirs, files in os.walk(full_prefix, onerror=_listing_failed):
             for file in files:
                 full_path = os.path.join(root, file)
                 # Return path relative to the canonical base_path
